@@ -34,7 +34,7 @@ def _max0(ctx, x):
 DSETS = {'a': [[1.0, -2.0, 0.5], [-1.0, 3.0, -0.25]], 'b': [[-0.5, 1.0, 2.0], [2.0, -1.0, -3.0]]}
 
 
-def steps_case(nb=2, nt=2, dset=None, nsteps=2):
+def steps_case(nb=2, nt=2, dset=None, nsteps=2, output_iter=1):
   """two chained iterations of the dual-averaging loop (output_iter = 1, batch_size = 1) from an arbitrary
   state: documented update, non-negativity, and checkpoint bookkeeping that keeps a SNAPSHOT of the best weights"""
   def fn(ctx):
@@ -62,7 +62,9 @@ def steps_case(nb=2, nt=2, dset=None, nsteps=2):
     class Self_(harness.StandIn):
       pass
     s = Self_()
-    s.beta, s.gamma, s.batch_size, s.output_iter, s.verbose = beta, gamma, 1, 1, False
+    s.beta, s.gamma, s.batch_size, s.output_iter, s.verbose = beta, gamma, 1, output_iter, False
+    # (the loop header's bound: arbitrary, the body must not depend on it)
+    s.max_iter = int(ctx.integer('max_iter_attr', 1, 4)) if output_iter > 1 else 10
     delta = 0.001
     state = dict(self=s, rand_int=rand_int, dist_diff=D, w=w.copy(), avg_grad_w=avg.copy(), ada_grad_w=ada.copy(), delta=delta,
                  best_obj=best_obj, n_triplets=nt, best_w=None)
@@ -89,6 +91,14 @@ def steps_case(nb=2, nt=2, dset=None, nsteps=2):
         ctx.require('weights_non_negative', ctx.ge(out['w'][0, j], 0, tol=1e-12))
         ctx.require('running_average_follows_documented_update', ctx.eq(out['avg_grad_w'][0, j], av2[j], tol=1e-9))
         ctx.require('adagrad_accumulator_follows_documented_update', ctx.eq(out['ada_grad_w'][0, j], gv2[j], tol=1e-9))
+      if (it + 1) % output_iter != 0:
+        # not an evaluation checkpoint: the bookkeeping must not move
+        ctx.require('no_checkpoint_between_multiples_of_output_iter',
+                    ctx.and_(ctx.eq(out['best_obj'], best_val, tol=0.0), ctx.cond(out['best_w'] is None or out['best_w'] is state['best_w'])))
+        for key in ('w', 'avg_grad_w', 'ada_grad_w'):
+          state[key] = out[key]
+        wv, av, gv = w2, av2, gv2
+        continue
       improved = ctx.lt(obj, best_val)
       if best_w_ref is None:
         have_best = improved
@@ -294,6 +304,9 @@ def cases(tier, seed):
     out.append(case('one_step_b%d' % nb, steps_case(nb, 2, None, 1), FUNCS,
                     'one iteration from an ARBITRARY state (dist_diff, w, running average, AdaGrad accumulator, beta >= 0, gamma > 0, best objective all symbolic), %d basis element(s), 2 triplets, batch 1, output_iter 1, any draw, iter in 0..2' % nb,
                     tiers=tiers, cost=30 * nb, proof_timeout_ms=30000, max_paths=200000, validate=10, hard_timeout_s=1500))
+  out.append(case('one_step_b1_output_iter2', steps_case(1, 2, None, 1, output_iter=2), FUNCS,
+                  'one iteration from an arbitrary state with output_iter=2, iter in 0..2, the loop bound max_iter arbitrary in 1..4: the evaluation checkpoint '
+                  'happens at multiples of output_iter only', cost=30, proof_timeout_ms=30000, max_paths=200000, validate=10, hard_timeout_s=900))
   out.append(case('two_steps_snapshot', steps_case(2, 2, None, 2), FUNCS,
                   'two chained iterations on random concrete states (sampled, not solver-decided): the best weights survive later iterations',
                   concrete_only=True, validate=80, cost=3))
